@@ -73,17 +73,35 @@ def _vp(p):
     return valid_pulse(p)
 
 
-contract(PF, "Pulse.ConstantPulse", props=("C02", "C15", "C16"), trusted=True,
-         note="constructor chain ConstantWaveform/Pulse.__init__ (numpy sample arrays); proved field-wise in the C16 set",
-         params={"cls": "opaque", "duration": "int", "amplitude": "real", "detuning": "real", "phase": "real", "post_phase_shift": "real"},
+from pyvc.core import FuncRef as _FR  # noqa: E402
+_PULSE_CLS = _FR("Pulse", "class")
+
+
+def const_defs(p):
+    from pyvc.core import isinstance_term
+    cval = uf("ConstantWaveform._value", Ref, R)
+    return z3.And(IS_CONST(p) == z3.And(isinstance_term(P_AMP(p), "ConstantWaveform"), isinstance_term(P_DET(p), "ConstantWaveform")),
+                  z3.Implies(IS_CONST(p), z3.And(CONST_AMP(p) == cval(P_AMP(p)), CONST_DET(p) == cval(P_DET(p)))))
+
+
+def idd_def(p):
+    """IS_DETUNED_DELAY(p): both waveforms constant and the amplitude's value is 0 (what is_detuned_delay computes)"""
+    from pyvc.core import isinstance_term
+    cval = uf("ConstantWaveform._value", Ref, R)
+    return IS_DETUNED_DELAY(p) == z3.And(isinstance_term(P_AMP(p), "ConstantWaveform"), cval(P_AMP(p)) == 0, isinstance_term(P_DET(p), "ConstantWaveform"))
+
+
+contract(PF, "Pulse.ConstantPulse", props=("C02", "C15", "C16"),
+         spec_defs=lambda c: [],
+         params={"cls": ("const", _PULSE_CLS), "duration": "int", "amplitude": "real", "detuning": "real", "phase": "real", "post_phase_shift": "real"},
          result=("ref", "Pulse"),
          requires=lambda c: [],
-         raises={"ValueError": ("only-if", lambda c: z3.Or(T(c.duration) < 1, T(c.amplitude) < 0))},
+         raises={"ValueError": lambda c: z3.Or(T(c.duration) < 1, T(c.amplitude) < 0)},
          ensures=lambda c: [
              ("valid", _vp(T(c.res))),
              ("duration", p_duration(T(c.res)) == T(c.duration)),
-             ("const", z3.And(IS_CONST(T(c.res)), CONST_AMP(T(c.res)) == T(c.amplitude), CONST_DET(T(c.res)) == T(c.detuning))),
-             ("detuned-delay-iff-zero-amp", IS_DETUNED_DELAY(T(c.res)) == (T(c.amplitude) == 0)),
+             ("const", z3.Implies(const_defs(T(c.res)), z3.And(IS_CONST(T(c.res)), CONST_AMP(T(c.res)) == T(c.amplitude), CONST_DET(T(c.res)) == T(c.detuning)))),
+             ("detuned-delay-iff-zero-amp", z3.Implies(idd_def(T(c.res)), IS_DETUNED_DELAY(T(c.res)) == (T(c.amplitude) == 0))),
              ("phase-in-range", z3.And(p_phase(T(c.res)) >= 0, p_phase(T(c.res)) < 2 * PI)),
              ("phase-unchanged-in-range", z3.Implies(z3.And(T(c.phase) >= 0, T(c.phase) < 2 * PI), p_phase(T(c.res)) == T(c.phase))),
          ])
@@ -108,17 +126,32 @@ def mod2pi(x, r):
     return z3.And(r == fmt(x), r >= 0, r < 2 * PI)
 
 
-contract(PF, "Pulse.__init__", props=("C01", "C07", "C16"), trusted=True,
-         note="reads numpy sample arrays (np.any(amplitude.samples < 0)); field-wise effect stated; the sample clause is proved per waveform class in the C16 set",
+def negamp_def(w):
+    """NEGAMP(w): some sample of w is negative"""
+    from .limits import samp
+    i = z3.Int("i!na")
+    return NEGAMP(w) == z3.Exists([i], z3.And(0 <= i, i < WDUR(w), samp(w, i) < 0))
+
+
+contract(PF, "Pulse.__init__", props=("C01", "C07", "C16"),
+         spec_defs=lambda c: [negamp_def(T(c.amplitude))],
          params={"self": ("ref", "Pulse"), "amplitude": ("ref", "Waveform"), "detuning": ("ref", "Waveform"), "phase": "real", "post_phase_shift": "real"},
-         result=("ref", "Pulse"),
+         result=None,
+         requires=lambda c: [("waveforms-constructed", z3.And(WDUR(T(c.amplitude)) >= 1, WDUR(T(c.detuning)) >= 1))],
          raises={"ValueError": lambda c: z3.Or(WDUR(T(c.amplitude)) != WDUR(T(c.detuning)), NEGAMP(T(c.amplitude)))},
          ensures=lambda c: [
-             ("valid", valid_pulse(T(c.res))),
-             ("waveforms", z3.And(P_AMP(T(c.res)) == T(c.amplitude), P_DET(T(c.res)) == T(c.detuning))),
+             ("valid", valid_pulse(T(c.self))),
+             ("waveforms", z3.And(P_AMP(T(c.self)) == T(c.amplitude), P_DET(T(c.self)) == T(c.detuning))),
              ("equal-durations", WDUR(T(c.amplitude)) == WDUR(T(c.detuning))),
-             ("phase-mod-2pi", mod2pi(T(c.phase), p_phase(T(c.res)))),
-             ("post-phase-shift-mod-2pi", mod2pi(T(c.post_phase_shift), P_PPS(T(c.res)))),
-             ("detuned-delay-depends-on-waveforms", IS_DETUNED_DELAY(T(c.res)) == uf("IDD_W", Ref, Ref, B)(T(c.amplitude), T(c.detuning))),
+             ("phase-mod-2pi", mod2pi(T(c.phase), p_phase(T(c.self)))),
+             ("post-phase-shift-mod-2pi", mod2pi(T(c.post_phase_shift), P_PPS(T(c.self)))),
          ])
 inline("pulser-core/pulser/sequence/_schedule.py", "_PhaseDriftParams.calc_phase_drift")
+
+
+# definitions of the pulse-level spec functions (conservative: each is an explicit definition)
+from .lib import axiom  # noqa: E402
+_pd = z3.Const("p!pd", Ref)
+axiom("P-IDD-DEF", z3.ForAll([_pd], idd_def(_pd), patterns=[IS_DETUNED_DELAY(_pd)]),
+      "definition of the spec function IS_DETUNED_DELAY; _ChannelSchedule.is_detuned_delay is verified against it")
+axiom("P-CONST-DEF", z3.ForAll([_pd], const_defs(_pd), patterns=[IS_CONST(_pd)]), "definition of IS_CONST / CONST_AMP / CONST_DET")
